@@ -1,10 +1,599 @@
-//! `ffi-*` harness commands.
+//! `ffi-*` harness commands (property C20): call the five `extern "C"` functions of
+//! `maybenot-ffi` through the crate's rlib exactly as a C integrator would — raw pointers,
+//! caller-owned output buffer with canary slots around it — and print, per call, the inputs,
+//! the result code, the count cell, the RAW BYTES of the whole buffer (guards included) and the
+//! actions the Rust `Framework` returns directly for the same machines and events.
+//!
+//! Protocol (one case = one API session):
+//!   case <id> <kind>
+//!   sizes <sizeof MaybenotAction> <alignof> <sizeof MaybenotEvent>
+//!   str <hex of the machine-string bytes, without the NUL>
+//!   m <hex bincode>            one per machine when every line parses with the Rust API
+//!   orc 0 0
+//!   start <outnull> <fp bits> <fb bits>
+//!   o rc <n> / o ref <utf8> <parse> <fw> <strict parse> / o out <0|1> / o nm <n|na> <nm(NULL)>
+//!   orc 0 0
+//!   ev <nulls:this,events,actions,count> <guard> <pat> <name:machine>*
+//!   o rc <n> / o count <n|unset> / o evraw <hex> / o mem <hex> / o A.. / o AT..   (reference)
+//!   orc 0 0
+//!   stop            -> o leak <before> <after> | o leak na
+//!   orc 0 0
+//!   version         -> o version <string> <expected>
+//!   end
 
+use crate::fw::fmt_actions;
+use crate::genm::{self, DistMode, GenCfg};
+use crate::util::{hex, unhex, Prng, ScriptRng};
+use crate::vtime::VInstant;
+use maybenot::{Framework, Machine, MachineId, TriggerAction, TriggerEvent};
+use maybenot_ffi::{
+    maybenot_num_machines, maybenot_on_events, maybenot_start, maybenot_stop, maybenot_version, MaybenotAction,
+    MaybenotEvent, MaybenotEventType, MaybenotFramework,
+};
+use std::fmt::Write as _;
 use std::io::Write;
+use std::mem::MaybeUninit;
+use std::str::FromStr;
+
+/// Bytes currently allocated according to the harness's counting global allocator.
+/// The allocator is owned by another module; until it is wired in, the leak check is reported
+/// as unavailable.
+fn alloc_current() -> Option<usize> {
+    None
+}
+
+const COUNT_SENTINEL: usize = 0xDEAD_BEEF_DEAD_BEEF;
+const OUT_SENTINEL: usize = 0x5A5A_5A5A_5A5A_5A58;
+const EV_NAMES: [&str; 10] = ["nr", "pr", "tr", "ns", "ps", "ts", "bb", "be", "tb", "te"];
+
+#[derive(Clone, Debug)]
+pub enum Op {
+    Start { out_null: bool, fp: f64, fb: f64 },
+    Ev { nulls: [bool; 4], guard: usize, pat: u8, events: Vec<(usize, usize)> },
+    Stop,
+    Version,
+}
+
+#[derive(Clone, Debug)]
+pub struct FfiCase {
+    pub id: String,
+    pub kind: String,
+    /// the machine-string argument, without the terminating NUL
+    pub mstr: Vec<u8>,
+    pub ops: Vec<Op>,
+}
+
+fn ev_type(i: usize) -> MaybenotEventType {
+    match i {
+        0 => MaybenotEventType::NormalRecv,
+        1 => MaybenotEventType::PaddingRecv,
+        2 => MaybenotEventType::TunnelRecv,
+        3 => MaybenotEventType::NormalSent,
+        4 => MaybenotEventType::PaddingSent,
+        5 => MaybenotEventType::TunnelSent,
+        6 => MaybenotEventType::BlockingBegin,
+        7 => MaybenotEventType::BlockingEnd,
+        8 => MaybenotEventType::TimerBegin,
+        _ => MaybenotEventType::TimerEnd,
+    }
+}
+
+/// the framework event an integrator means by the named C event
+fn trigger_event(i: usize, machine: usize) -> TriggerEvent {
+    let machine = MachineId::from_raw(machine);
+    match i {
+        0 => TriggerEvent::NormalRecv,
+        1 => TriggerEvent::PaddingRecv,
+        2 => TriggerEvent::TunnelRecv,
+        3 => TriggerEvent::NormalSent,
+        4 => TriggerEvent::PaddingSent { machine },
+        5 => TriggerEvent::TunnelSent,
+        6 => TriggerEvent::BlockingBegin { machine },
+        7 => TriggerEvent::BlockingEnd,
+        8 => TriggerEvent::TimerBegin { machine },
+        _ => TriggerEvent::TimerEnd { machine },
+    }
+}
+
+/// The Rust API's view of the machine string: UTF-8?, then every LF-separated piece (a final
+/// empty piece after a trailing LF does not count, one trailing CR is not part of a piece)
+/// through `Machine::from_str`.
+fn reference_parse(mstr: &[u8]) -> (bool, Option<Vec<Machine>>) {
+    let s = match std::str::from_utf8(mstr) {
+        Ok(s) => s,
+        Err(_) => return (false, None),
+    };
+    let mut pieces: Vec<&str> = s.split('\n').collect();
+    if pieces.last() == Some(&"") {
+        pieces.pop();
+    }
+    let mut ms = Vec::new();
+    for p in pieces {
+        let p = p.strip_suffix('\r').unwrap_or(p);
+        match Machine::from_str(p) {
+            Ok(m) => ms.push(m),
+            Err(_) => return (true, None),
+        }
+    }
+    (true, Some(ms))
+}
+
+/// The literal reading of "newline-separated machine strings": every piece between LFs (a
+/// trailing LF yields a final empty piece, a CR stays part of its piece) must be accepted by
+/// `Machine::from_str`.  Reported next to the `str::lines` reading for the record.
+fn strict_parse_ok(mstr: &[u8]) -> bool {
+    match std::str::from_utf8(mstr) {
+        Ok(s) => s.is_empty() || s.split('\n').all(|p| Machine::from_str(p).is_ok()),
+        Err(_) => false,
+    }
+}
+
+type RefFw = Framework<Vec<Machine>, ScriptRng, VInstant>;
+
+/// Run one session against the real C API and return its protocol text.
+pub fn run_case(c: &FfiCase) -> String {
+    let mut out = String::new();
+    let asz = std::mem::size_of::<MaybenotAction>();
+    let _ = writeln!(out, "case {} {}", c.id, c.kind);
+    let _ = writeln!(out, "sizes {} {} {}", asz, std::mem::align_of::<MaybenotAction>(), std::mem::size_of::<MaybenotEvent>());
+    let _ = writeln!(out, "str {}", if c.mstr.is_empty() { "-".to_string() } else { hex(&c.mstr) });
+    let (utf8, parsed) = reference_parse(&c.mstr);
+    if let Some(ms) = &parsed {
+        for m in ms {
+            let _ = writeln!(out, "m {}", hex(&genm::machine_bytes(m)));
+        }
+    }
+    let mut inst: *mut MaybenotFramework = std::ptr::null_mut();
+    let mut reference: Option<RefFw> = None;
+    let mut ref_time: i128 = 0;
+    let mut alloc_before: Option<usize> = None;
+    for op in &c.ops {
+        let _ = writeln!(out, "orc 0 0");
+        match op {
+            Op::Start { out_null, fp, fb } => {
+                let _ = writeln!(out, "start {} {:016x} {:016x}", *out_null as u8, fp.to_bits(), fb.to_bits());
+                if !inst.is_null() {
+                    let _ = writeln!(out, "o skipped already-started");
+                    continue;
+                }
+                let mut cstr = c.mstr.clone();
+                cstr.push(0);
+                alloc_before = alloc_current();
+                let mut slot: MaybeUninit<*mut MaybenotFramework> = MaybeUninit::new(OUT_SENTINEL as *mut MaybenotFramework);
+                let outp: *mut MaybeUninit<*mut MaybenotFramework> = if *out_null { std::ptr::null_mut() } else { &mut slot };
+                let rc = unsafe { maybenot_start(cstr.as_ptr().cast(), *fp, *fb, outp) } as u32;
+                let got = unsafe { slot.assume_init() };
+                let written = got as usize != OUT_SENTINEL && !got.is_null();
+                if written {
+                    inst = got;
+                }
+                // the Rust API directly, for the same arguments
+                let fw_ref = match &parsed {
+                    Some(ms) => match Framework::new(ms.clone(), *fp, *fb, VInstant(0), ScriptRng::new(1, 0)) {
+                        Ok(f) => {
+                            if written {
+                                reference = Some(f);
+                            }
+                            "ok"
+                        }
+                        Err(_) => "err",
+                    },
+                    None => "na",
+                };
+                let _ = writeln!(out, "o rc {}", rc);
+                let _ = writeln!(
+                    out,
+                    "o ref {} {} {} {}",
+                    utf8 as u8,
+                    if !utf8 { "na" } else if parsed.is_some() { "ok" } else { "bad" },
+                    fw_ref,
+                    if !utf8 { "na" } else if strict_parse_ok(&c.mstr) { "ok" } else { "bad" }
+                );
+                let _ = writeln!(out, "o out {}", written as u8);
+                let nm_null = unsafe { maybenot_num_machines(std::ptr::null_mut()) };
+                if written {
+                    let _ = writeln!(out, "o nm {} {}", unsafe { maybenot_num_machines(inst) }, nm_null);
+                } else {
+                    let _ = writeln!(out, "o nm na {}", nm_null);
+                }
+            }
+            Op::Ev { nulls, guard, pat, events } => {
+                let words: Vec<String> = events.iter().map(|(t, m)| format!("{}:{}", EV_NAMES[*t % 10], m)).collect();
+                let this_null = nulls[0] || inst.is_null();
+                let nulls = [this_null, nulls[1], nulls[2], nulls[3]];
+                let nstr: String = nulls.iter().map(|b| if *b { '1' } else { '0' }).collect();
+                let _ = writeln!(out, "ev {} {} {:02x} {}", nstr, guard, pat, words.join(" "));
+                let n = if inst.is_null() { 0 } else { unsafe { maybenot_num_machines(inst) } };
+                let total = guard + n + guard;
+                // caller-owned memory: guard slots, n output slots, guard slots; 8-byte aligned
+                let mut mem: Vec<u64> = vec![u64::from_le_bytes([*pat; 8]); (total * asz + 7) / 8 + 1];
+                let base = mem.as_mut_ptr() as *mut u8;
+                let actp: *mut MaybeUninit<MaybenotAction> =
+                    if nulls[2] { std::ptr::null_mut() } else { unsafe { base.add(guard * asz) }.cast() };
+                let cevents: Vec<MaybenotEvent> =
+                    events.iter().map(|(t, m)| MaybenotEvent { event_type: ev_type(*t % 10), machine: *m }).collect();
+                let evp: *const MaybenotEvent = if nulls[1] { std::ptr::null() } else { cevents.as_ptr() };
+                let mut count: usize = COUNT_SENTINEL;
+                let cntp: *mut usize = if nulls[3] { std::ptr::null_mut() } else { &mut count };
+                let thisp = if this_null { std::ptr::null_mut() } else { inst };
+                let rc = unsafe { maybenot_on_events(thisp, evp, cevents.len(), actp, cntp) } as u32;
+                let _ = writeln!(out, "o rc {}", rc);
+                if count == COUNT_SENTINEL {
+                    let _ = writeln!(out, "o count unset");
+                } else {
+                    let _ = writeln!(out, "o count {}", count);
+                }
+                let evraw = unsafe {
+                    std::slice::from_raw_parts(cevents.as_ptr() as *const u8, cevents.len() * std::mem::size_of::<MaybenotEvent>())
+                };
+                let _ = writeln!(out, "o evraw {}", if evraw.is_empty() { "-".to_string() } else { hex(evraw) });
+                let raw = unsafe { std::slice::from_raw_parts(base as *const u8, total * asz) };
+                let _ = writeln!(out, "o mem {}", if raw.is_empty() { "-".to_string() } else { hex(raw) });
+                // the Rust framework directly (only when the call reached the framework)
+                if !nulls.iter().any(|b| *b) {
+                    if let Some(f) = reference.as_mut() {
+                        ref_time += 1_000_000;
+                        let tes: Vec<TriggerEvent> = events.iter().map(|(t, m)| trigger_event(*t % 10, *m)).collect();
+                        let acts: Vec<TriggerAction<VInstant>> = f.trigger_events(&tes, VInstant(ref_time)).cloned().collect();
+                        let mut s = String::new();
+                        fmt_actions(&mut s, &acts);
+                        out.push_str(&s);
+                    }
+                }
+            }
+            Op::Stop => {
+                let _ = writeln!(out, "stop");
+                if inst.is_null() {
+                    let _ = writeln!(out, "o skipped not-started");
+                    continue;
+                }
+                unsafe { maybenot_stop(inst) };
+                inst = std::ptr::null_mut();
+                reference = None;
+                match (alloc_before, alloc_current()) {
+                    (Some(b), Some(a)) => {
+                        let _ = writeln!(out, "o leak {} {}", b, a);
+                    }
+                    _ => {
+                        let _ = writeln!(out, "o leak na");
+                    }
+                }
+            }
+            Op::Version => {
+                let _ = writeln!(out, "version");
+                let p = maybenot_version();
+                let s = unsafe { std::ffi::CStr::from_ptr(p) }.to_string_lossy().into_owned();
+                let _ = writeln!(out, "o version {} maybenot-ffi/{}", s.replace(' ', "_"), ffi_crate_version());
+            }
+        }
+    }
+    if !inst.is_null() {
+        unsafe { maybenot_stop(inst) };
+    }
+    let _ = writeln!(out, "end");
+    out
+}
+
+/// `version = ".."` of /repo/crates/maybenot-ffi/Cargo.toml, read at run time
+fn ffi_crate_version() -> String {
+    let repo = std::env::var("VERIF_REPO").unwrap_or_else(|_| "/repo".into());
+    let text = std::fs::read_to_string(format!("{repo}/crates/maybenot-ffi/Cargo.toml")).unwrap_or_default();
+    for line in text.lines() {
+        let l = line.trim();
+        if let Some(rest) = l.strip_prefix("version") {
+            if let Some(v) = rest.split('"').nth(1) {
+                return v.to_string();
+            }
+        }
+    }
+    "?".into()
+}
+
+/* ---------- generators ---------- */
+
+fn gen_machines(p: &mut Prng, n: usize, no_blocking: bool) -> Vec<Machine> {
+    let mut cfg = GenCfg { prob_one: true, dist: DistMode::Const, ..GenCfg::default() };
+    cfg.max_states = p.range(1, 5) as usize;
+    cfg.density = *p.pick(&[40, 60, 80]);
+    if no_blocking {
+        cfg.kinds = vec![0, 1, 3];
+    }
+    (0..n)
+        .map(|_| {
+            let mut m = genm::gen_machine(p, &cfg);
+            // the API stamps events with the OS clock: keep every limit independent of time
+            m.max_blocking_frac = 0.0;
+            m
+        })
+        .collect()
+}
+
+fn gen_id(p: &mut Prng, n: usize) -> usize {
+    let r = p.below(20);
+    if n > 0 && r < 14 {
+        p.below(n as u64) as usize
+    } else {
+        match r {
+            14 | 15 | 16 => n,
+            17 => u32::MAX as usize,
+            18 => usize::MAX,
+            _ => n + 1,
+        }
+    }
+}
+
+fn gen_nulls(p: &mut Prng) -> [bool; 4] {
+    loop {
+        let b = p.below(16);
+        if b != 0 {
+            return [b & 1 != 0, b & 2 != 0, b & 4 != 0, b & 8 != 0];
+        }
+    }
+}
+
+fn gen_ev_ops(p: &mut Prng, n: usize, calls: u64, max_batch: u64) -> Vec<Op> {
+    let mut ops = Vec::new();
+    for _ in 0..calls {
+        let guard = p.range(1, 3) as usize;
+        let pat = *p.pick(&[0xC5u8, 0x00, 0xFF, 0x01, 0x7E]);
+        let k = p.below(max_batch + 1);
+        let events: Vec<(usize, usize)> = (0..k).map(|_| (p.below(10) as usize, gen_id(p, n))).collect();
+        let nulls = if p.chance(1, 12) { gen_nulls(p) } else { [false; 4] };
+        ops.push(Op::Ev { nulls, guard, pat, events });
+        if p.chance(1, 40) {
+            ops.push(Op::Version);
+        }
+    }
+    ops
+}
+
+fn join(ms: &[Machine], sep: &str) -> Vec<u8> {
+    ms.iter().map(|m| m.serialize()).collect::<Vec<_>>().join(sep).into_bytes()
+}
+
+/// a valid session: start, batches of events, stop
+fn gen_run(p: &mut Prng, id: String, deep: bool) -> FfiCase {
+    let n = *p.pick(&[0usize, 1, 1, 2, 2, 3, 3, 4, 5]);
+    let fb = *p.pick(&[0.0, 0.0, 0.0, -0.0, 0.5, 1.0]);
+    let fp = *p.pick(&[0.0, 0.0, -0.0, 0.5, 1.0, 1e-9, 0.25]);
+    let ms = gen_machines(p, n, fb > 0.0);
+    let mut mstr = match p.below(10) {
+        0 => join(&ms, "\r\n"),
+        _ => join(&ms, "\n"),
+    };
+    if n > 0 && p.chance(1, 8) {
+        mstr.push(b'\n');
+    }
+    let mut ops = vec![Op::Start { out_null: false, fp, fb }];
+    let calls = if deep { p.range(1, 80) } else { p.range(1, 25) };
+    ops.extend(gen_ev_ops(p, n, calls, if deep { 12 } else { 6 }));
+    ops.push(Op::Stop);
+    FfiCase { id, kind: "run".into(), mstr, ops }
+}
+
+/// every invalid start argument the contract allows, alone and combined
+fn gen_badstart(p: &mut Prng, id: String) -> FfiCase {
+    let n = p.range(1, 3) as usize;
+    let ms = gen_machines(p, n, false);
+    let good = join(&ms, "\n");
+    let mut out_null = false;
+    let mut fp = *p.pick(&[0.0, 0.5, 1.0]);
+    let mut fb = 0.0;
+    let mut mstr = good.clone();
+    const BAD_FRACS: [f64; 9] =
+        [-0.1, 1.1, f64::NAN, f64::INFINITY, f64::NEG_INFINITY, 1.0000000000000002, -5e-324, -1.0, 2.0];
+    let mut picks = vec![p.below(5)];
+    if p.chance(1, 3) {
+        picks.push(p.below(5));
+    }
+    for k in picks {
+        match k {
+            0 => out_null = true,
+            1 => {
+                // not UTF-8
+                mstr = match p.below(4) {
+                    0 => vec![0xff, 0xfe],
+                    1 => {
+                        let mut s = good.clone();
+                        let i = p.below(s.len() as u64) as usize;
+                        s[i] = 0x80;
+                        s
+                    }
+                    2 => {
+                        let mut s = good.clone();
+                        s.extend_from_slice(&[b'\n', 0xc3]);
+                        s
+                    }
+                    _ => vec![0xc0, 0xaf, b'0', b'2'],
+                };
+            }
+            2 => {
+                // UTF-8 but not a list of valid machine strings
+                mstr = match p.below(10) {
+                    0 => b"\n".to_vec(),
+                    1 => b"not a machine".to_vec(),
+                    2 => {
+                        let mut s = good.clone();
+                        s[1] = b'1'; // version 01
+                        s
+                    }
+                    3 => good[..good.len() - 1 - p.below(6) as usize].to_vec(),
+                    4 => {
+                        let mut s = good.clone();
+                        let i = 2 + p.below(s.len() as u64 - 2) as usize;
+                        s[i] = if s[i] == b'A' { b'B' } else { b'A' };
+                        s
+                    }
+                    5 => {
+                        let mut s = good.clone();
+                        s.extend_from_slice(b"\ngarbage");
+                        s
+                    }
+                    6 => {
+                        let mut s = good.clone();
+                        s.extend_from_slice(b"\n\n");
+                        s.extend_from_slice(&good);
+                        s
+                    }
+                    7 => "02\u{e9}\u{e9}\u{e9}".as_bytes().to_vec(),
+                    8 => {
+                        // well-formed encoding of a machine that does not validate
+                        let mut m = ms[0].clone();
+                        m.max_padding_frac = 2.0;
+                        m.serialize().into_bytes()
+                    }
+                    _ => b"02".to_vec(),
+                };
+            }
+            3 => fp = *p.pick(&BAD_FRACS),
+            _ => fb = *p.pick(&BAD_FRACS),
+        }
+    }
+    let mut ops = vec![Op::Start { out_null, fp, fb }];
+    // whatever happened, a call without an instance must answer NullPointer and touch nothing
+    ops.push(Op::Ev { nulls: [true, false, false, false], guard: 1, pat: 0xC5, events: vec![(3, 0)] });
+    let extra = p.range(0, 3);
+    ops.extend(gen_ev_ops(p, n, extra, 4));
+    ops.push(Op::Version);
+    ops.push(Op::Stop);
+    FfiCase { id, kind: "badstart".into(), mstr, ops }
+}
+
+/// the input lines of a case only (nothing is executed)
+pub fn inputs_text(c: &FfiCase) -> String {
+    let mut out = String::new();
+    let _ = writeln!(out, "case {} {}", c.id, c.kind);
+    let _ = writeln!(out, "str {}", if c.mstr.is_empty() { "-".to_string() } else { hex(&c.mstr) });
+    for op in &c.ops {
+        match op {
+            Op::Start { out_null, fp, fb } => {
+                let _ = writeln!(out, "start {} {:016x} {:016x}", *out_null as u8, fp.to_bits(), fb.to_bits());
+            }
+            Op::Ev { nulls, guard, pat, events } => {
+                let words: Vec<String> = events.iter().map(|(t, m)| format!("{}:{}", EV_NAMES[*t % 10], m)).collect();
+                let nstr: String = nulls.iter().map(|b| if *b { '1' } else { '0' }).collect();
+                let _ = writeln!(out, "ev {} {} {:02x} {}", nstr, guard, pat, words.join(" "));
+            }
+            Op::Stop => {
+                let _ = writeln!(out, "stop");
+            }
+            Op::Version => {
+                let _ = writeln!(out, "version");
+            }
+        }
+    }
+    let _ = writeln!(out, "end");
+    out
+}
+
+/// Parse the input lines of a protocol file (ignoring outputs) back into cases.
+pub fn parse_cases(text: &str) -> Vec<FfiCase> {
+    let mut res = Vec::new();
+    let mut cur: Option<FfiCase> = None;
+    for line in text.lines() {
+        let ws: Vec<&str> = line.split_whitespace().collect();
+        match ws.as_slice() {
+            ["case", id, kind @ ..] => {
+                cur = Some(FfiCase { id: id.to_string(), kind: kind.join(" "), mstr: vec![], ops: vec![] });
+            }
+            ["str", h] => {
+                if let Some(c) = cur.as_mut() {
+                    c.mstr = if *h == "-" { vec![] } else { unhex(h).unwrap_or_default() };
+                }
+            }
+            ["start", on, fp, fb] => {
+                if let Some(c) = cur.as_mut() {
+                    c.ops.push(Op::Start {
+                        out_null: *on == "1",
+                        fp: f64::from_bits(u64::from_str_radix(fp, 16).unwrap_or(0)),
+                        fb: f64::from_bits(u64::from_str_radix(fb, 16).unwrap_or(0)),
+                    });
+                }
+            }
+            ["ev", nulls, guard, pat, evs @ ..] => {
+                if let Some(c) = cur.as_mut() {
+                    let nb: Vec<bool> = nulls.chars().map(|ch| ch == '1').collect();
+                    let mut events = Vec::new();
+                    for e in evs {
+                        if let Some((k, m)) = e.split_once(':') {
+                            if let (Some(t), Ok(m)) = (EV_NAMES.iter().position(|x| *x == k), m.parse::<usize>()) {
+                                events.push((t, m));
+                            }
+                        }
+                    }
+                    c.ops.push(Op::Ev {
+                        nulls: [nb.first().copied().unwrap_or(false), nb.get(1).copied().unwrap_or(false), nb.get(2).copied().unwrap_or(false), nb.get(3).copied().unwrap_or(false)],
+                        guard: guard.parse().unwrap_or(1),
+                        pat: u8::from_str_radix(pat, 16).unwrap_or(0xC5),
+                        events,
+                    });
+                }
+            }
+            ["stop"] => {
+                if let Some(c) = cur.as_mut() {
+                    c.ops.push(Op::Stop);
+                }
+            }
+            ["version"] => {
+                if let Some(c) = cur.as_mut() {
+                    c.ops.push(Op::Version);
+                }
+            }
+            ["end"] => {
+                if let Some(c) = cur.take() {
+                    res.push(c);
+                }
+            }
+            _ => {}
+        }
+    }
+    res
+}
 
 /// Returns false if `sub` is not a command of this module.
-pub fn cmd(sub: &str, _args: &[String], _w: &mut dyn Write) -> bool {
+pub fn cmd(sub: &str, args: &[String], w: &mut dyn Write) -> bool {
+    let seed: u64 = crate::arg_val(args, "--seed").and_then(|s| s.parse().ok()).unwrap_or(1);
+    let cases: u64 = crate::arg_val(args, "--cases").and_then(|s| s.parse().ok()).unwrap_or(100);
     match sub {
+        "ffi-gen" => {
+            let kind = crate::arg_val(args, "--kind").unwrap_or_else(|| "run".into());
+            let salt = match kind.as_str() {
+                "run" => 0x0c20_0001u64,
+                "deep" => 0x0c20_0002,
+                "badstart" => 0x0c20_0003,
+                other => {
+                    eprintln!("unknown ffi kind {other}");
+                    std::process::exit(2);
+                }
+            };
+            let only: Option<u64> = crate::arg_val(args, "--only").and_then(|s| s.parse().ok());
+            let dry = args.iter().any(|a| a == "--dry");
+            let mut p = Prng::new(seed ^ salt);
+            for i in 0..cases {
+                let mut cp = p.fork();
+                if only.is_some() && only != Some(i) {
+                    continue;
+                }
+                let id = format!("ffi-{}-{}-{}", kind, seed, i);
+                let c = match kind.as_str() {
+                    "run" => gen_run(&mut cp, id, false),
+                    "deep" => gen_run(&mut cp, id, true),
+                    _ => gen_badstart(&mut cp, id),
+                };
+                let text = if dry { inputs_text(&c) } else { run_case(&c) };
+                let _ = w.write_all(text.as_bytes());
+                let _ = w.flush();
+            }
+            true
+        }
+        "ffi-replay" => {
+            let mut text = String::new();
+            let _ = std::io::Read::read_to_string(&mut std::io::stdin(), &mut text);
+            for c in parse_cases(&text) {
+                let _ = w.write_all(run_case(&c).as_bytes());
+            }
+            true
+        }
         _ => false,
     }
 }
